@@ -1,4 +1,5 @@
 import ProductMD.Proofs.RulesIndep
+import ProductMD.Proofs.JsonRoundTrip
 /-!
 # C03 — RPM, module and extra-file manifests survive a write/read cycle unchanged
 
@@ -280,5 +281,80 @@ theorem C03_example :
   constructor
   · decide
   · decide +kernel
+
+end PM.Mf
+
+/-! ## bytes through the modelled JSON parser (builder jsonparse)
+
+`JsonParse.parseWith lim` (Model/JsonParse.lean) is the model of CPython's `json.loads` under
+`sys.set_int_max_str_digits(lim)` (`lim = 0`: no limit; CPython's default is `JsonParse.defaultLimit = 4300`), tied to
+the real parser by `harness/json_diff.py`; `Proofs/JsonRoundTrip.lean` proves that it inverts `JsonText.dumps` on
+JSON-representable documents.  The parser hypothesis of `C03_bytes` is discharged; what remains explicit is the side
+condition on NUMBERS in the built mapping (`numsOk`: float tokens are float literals; integers within `int()`'s digit
+limit — the real `dumps` itself raises beyond it) and on the compose section's `respin`. -/
+namespace PM.Mf
+open PM
+
+theorem numsOk_docOf (lim : Nat) (k : Kind) (c : ComposeT) (p : PyVal) (hp : JsonParse.numsOk lim p = true)
+    (hr : JsonParse.intFits lim c.respin = true) : JsonParse.numsOk lim (docOf k c p) = true := by
+  have hc : JsonParse.numsOk lim (composeDoc c) = true := by
+    unfold composeDoc
+    cases c.labelSet
+    · simp [JsonParse.numsOk, JsonParse.numsOkKvs, hr]
+    · cases h : c.label <;> simp [JsonParse.numsOk, JsonParse.numsOkKvs, hr, optStr]
+  cases k <;> simp [docOf, payloadDoc, headerDoc, JsonParse.numsOk, JsonParse.numsOkKvs, hp, hc]
+
+/-- **Byte level, parser modelled** — for every history of add calls, every kind and every valid compose section:
+`dumps` succeeds, the modelled `json.loads` reads that very text, `deserialize` of what it returns succeeds, and
+`dumps` of the re-read manifest is the same text, byte for byte.  No assumption on the parser is left. -/
+theorem C03_bytes_parsed (lim : Nat) (k : Kind) (ops : List AddOp)
+    (hargs : ∀ op ∈ ops, op.argsRep = true) (v0 : PyVal) (c : ComposeT) (hv : composeValidate c.toObj = .ok ())
+    (hnum : JsonParse.numsOk lim (runOps empty ops) = true) (hr : JsonParse.intFits lim c.respin = true) :
+    ∃ t m2, (dumps k { version := v0, compose := c.toObj, payload := runOps empty ops }).2 = .ok t
+      ∧ (JsonParse.parseWith lim t).bind (deserialize k) = .ok m2
+      ∧ (dumps k m2).2 = .ok t := by
+  refine C03_bytes (JsonParse.parseWith lim) k ops hargs v0 c hv ?_
+  intro doc hd
+  rw [dumpDoc_eq k v0 c _ hv] at hd
+  cases hd
+  exact JsonParse.parseWith_dumps lim _ (jsonRep_docOf k c _ (C03_json_closed ops hargs))
+    (numsOk_docOf lim k c _ hnum hr)
+
+/-- the same for any JSON-representable mapping (e.g. one that was itself loaded), not only built ones -/
+theorem C03_bytes_parsed_payload (lim : Nat) (k : Kind) (v0 : PyVal) (c : ComposeT) (p : PyVal) (hp : jsonRep p = true)
+    (hv : composeValidate c.toObj = .ok ())
+    (hnum : JsonParse.numsOk lim p = true) (hr : JsonParse.intFits lim c.respin = true) :
+    ∃ t rt, roundtrip k { version := v0, compose := c.toObj, payload := p } = .ok rt ∧ rt.text1 = t ∧ rt.text2 = t
+      ∧ (JsonParse.parseWith lim t).bind (deserialize k) = .ok rt.reloaded := by
+  obtain ⟨rt, h1, _, _, _, _, h6⟩ := C03_roundtrip_payload k v0 c p hp hv
+  refine ⟨rt.text1, rt, h1, rfl, h6, ?_⟩
+  unfold roundtrip at h1
+  rw [dumpDoc_eq k v0 c p hv] at h1
+  simp only at h1
+  cases hds : deserialize k (reparse (docOf k c p)) with
+  | error e => rw [hds] at h1; cases h1
+  | ok m2 =>
+    rw [hds] at h1
+    simp only at h1
+    cases hd2 : (dumpDoc k m2).2 with
+    | error e => rw [hd2] at h1; cases h1
+    | ok doc2 =>
+      rw [hd2] at h1
+      simp only [Except.ok.injEq] at h1
+      subst h1
+      simp only
+      rw [JsonParse.parseWith_dumps lim _ (jsonRep_docOf k c p hp) (numsOk_docOf lim k c p hnum hr)]
+      exact hds
+
+/-- non-vacuity: the example history satisfies the number side condition under CPython's default limit, and the
+kernel runs the modelled parser on the text of the example manifest: it reads back the key-sorted document -/
+example : JsonParse.numsOk JsonParse.defaultLimit (runOps empty exampleOps) = true
+    ∧ JsonParse.intFits JsonParse.defaultLimit exampleCompose.respin = true := by decide +kernel
+
+example : (match (dumpDoc .rpms { version := .str (lit "0.0"), compose := exampleCompose.toObj,
+                                  payload := runOps empty exampleOps }).2 with
+    | .ok doc => (match JsonParse.parse (JsonText.dumps doc) with
+                  | .ok w => PyVal.beq w (reparse doc) | .error _ => false)
+    | .error _ => false) = true := by decide +kernel
 
 end PM.Mf
